@@ -171,7 +171,7 @@ impl Engine for C16 {
     fn assumptions(&self) -> Vec<String> {
         vec![
             "signatures are faked but bound to the signer's key address (blake2b(signer ‖ voucher bytes))".into(),
-            "parties are account actors; merge lists naming the same lane twice are judged only by the safety clauses (0 ≤ owed ≤ balance)".into(),
+            "parties are account actors".into(),
             "an implementation that rejects a voucher the model accepts is labelled, not reported".into(),
         ]
     }
@@ -388,8 +388,11 @@ impl Engine for C16 {
                     let mut dup_merge = false;
                     let mut seen = std::collections::BTreeSet::new();
                     let mut redeemed_others = BigInt::zero();
+                    // nonces as raised by earlier entries of this very merge list
+                    let mut raised: BTreeMap<u64, u64> = BTreeMap::new();
                     for mg in &merges {
-                        if !seen.insert(mg.lane) {
+                        let first = seen.insert(mg.lane);
+                        if !first {
                             dup_merge = true;
                         }
                         if mg.lane == lane {
@@ -398,35 +401,31 @@ impl Engine for C16 {
                         match m.lanes.get(&mg.lane) {
                             None => set("merges unknown lane"),
                             Some(l) => {
-                                if mg.nonce <= l.nonce {
+                                let cur = raised.get(&mg.lane).copied().unwrap_or(l.nonce);
+                                if mg.nonce <= cur {
                                     set("stale merge nonce");
                                 }
-                                redeemed_others += &l.redeemed;
+                                raised.insert(mg.lane, mg.nonce);
+                                // "the lanes it merges" is a set: a lane's redeemed amount is deducted once per voucher
+                                if first {
+                                    redeemed_others += &l.redeemed;
+                                }
                             }
                         }
                     }
                     let own_redeemed = m.lanes.get(&lane).map(|l| l.redeemed.clone()).unwrap_or_default();
                     let new_to_send = &m.to_send + amount.atto() - &own_redeemed - &redeemed_others;
-                    if !dup_merge {
-                        if new_to_send.is_negative() {
-                            set("owed would be negative");
-                        }
-                        if &new_to_send > bal.atto() {
-                            set("owed would exceed balance");
-                        }
+                    if new_to_send.is_negative() {
+                        set("owed would be negative");
+                    }
+                    if &new_to_send > bal.atto() {
+                        set("owed would exceed balance");
                     }
                     let p = pc::UpdateChannelStateParams { sv: sv.clone(), secret };
                     let r = w.call(submitter, ch, pc::Method::UpdateChannelState as u64, &TokenAmount::zero(), &p);
                     stats.say(|| format!("op {i}: voucher lane {lane} nonce {nonce} amount {amount} merges {merges:?} by {submitter} signer {:?} -> {} {} (model: {:?})", vs.signer, r.code.value(), r.message, reject));
                     if dup_merge {
                         stats.label("duplicate_merge_lane");
-                        // safety only; resynchronise the model from the actor state
-                        if r.ok() {
-                            let st: pc::State = w.v.get_state(ch).unwrap();
-                            vassert!(!st.to_send.is_negative() && st.to_send <= bal, "owed-out-of-range", "to_send {} balance {}", st.to_send, bal);
-                            m = read_model(&w, ch);
-                        }
-                        continue;
                     }
                     if r.ok() {
                         if let Some(why) = reject {
